@@ -4,6 +4,7 @@
 From Coq Require Import ZArith List Bool String Reals.
 From VQ Require Import Num Model.Vec Model.Core Proofs.CoreEMA Glue.CoreGlue.
 From VQ Require Import Glue.Pin_fp_C03.
+From VQ Require Import Model.Blocks Proofs.BlockProofs.
 Import ListNotations.
 Open Scope R_scope.
 
@@ -237,3 +238,49 @@ Theorem C03_tie_source_footprint :
   fp_C03.fp_C03 = pinned_fp_C03.
 Proof. exact (@Pin_fp_C03.pin_fp_C03). Qed.
 Print Assumptions C03_tie_source_footprint.
+
+(* implicit *)
+Theorem C03_block_counts :
+  forall (bs : list (nblock R)) (j : nat),
+       @count_j R R_ops (@combine nat bool (@expand_idx R bs) (@expand_valid R bs)) j =
+       @bcount_j R R_ops (@map (nblock R) (block R) rblock bs) j.
+Proof. exact (@BlockProofs.block_counts). Qed.
+Print Assumptions C03_block_counts.
+
+(* implicit *)
+Theorem C03_block_sums :
+  forall (d : nat) (bs : list (nblock R)) (j : nat),
+       @Forall (Rv * nat * bool * nat)
+         (fun b : Rv * nat * bool * nat =>
+          @Datatypes.length R (@fst Rv nat (@fst (Rv * nat) bool (@fst (Rv * nat * bool) nat b))) = d) bs ->
+       @sum_j R R_ops d (@expand_xs R bs) (@combine nat bool (@expand_idx R bs) (@expand_valid R bs)) j =
+       @bsum_j R R_ops d (@map (nblock R) (block R) rblock bs) j.
+Proof. exact (@BlockProofs.block_sums). Qed.
+Print Assumptions C03_block_sums.
+
+(* implicit *)
+Theorem C03_block_update_correct :
+  forall (cfg : ccfg R) (d : nat) (s : cstate R) (bs : list (nblock R)) (picks : list Rv),
+       @Forall (Rv * nat * bool * nat)
+         (fun b : Rv * nat * bool * nat =>
+          @Datatypes.length R (@fst Rv nat (@fst (Rv * nat) bool (@fst (Rv * nat * bool) nat b))) = d) bs ->
+       @dim_of R (@expand_xs R bs) = d ->
+       @c_ema_update R cfg = true ->
+       @c_manual R cfg = false ->
+       @c_thr R cfg = 0 ->
+       @cb_update R R_ops sqrt cfg true false true s (@expand_xs R bs) (@expand_valid R bs)
+         (@expand_idx R bs) picks = @block_update R R_ops sqrt cfg d s (@map (nblock R) (block R) rblock bs).
+Proof. exact (@BlockProofs.block_update_correct). Qed.
+Print Assumptions C03_block_update_correct.
+
+(* implicit *)
+Theorem C03_block_single_code_count :
+  forall (decay : R) (d : nat) (s : cstate R) (x : Rv) (j n : nat),
+       @Datatypes.length R x = d ->
+       (j < @Datatypes.length R (@cluster_size R s))%nat ->
+       @nth R j
+         (@cluster_size R
+            (@ema_accumulate R R_ops decay d s (@repeat Rv x n) (@repeat (nat * bool) (j, true) n))) 0 =
+       decay * @nth R j (@cluster_size R s) 0 + (1 - decay) * INR n.
+Proof. exact (@BlockProofs.block_single_code_count). Qed.
+Print Assumptions C03_block_single_code_count.
